@@ -60,6 +60,7 @@ P["C03"] = {
     "common": {"validate": 4, "ignore_kinds": ["alloc", "unwind"], "runs": [
         {"pattern": "verifHarness_C0304_", "label_filter": "C03:"},
         {"pattern": "verifHarness_C03_", "label_filter": "C03:"},
+        {"pattern": "verifHarness_C04_mixed_blocks", "label_filter": "C03:"},
         {"pattern": "verifHarness_C07_intact", "label_filter": "C07:"}]},
     "thorough": {"validate": 16},
     "bounds": "129 (writer type, target type) pairs: 28 catalogue types and the 11 scale types (long strings/bytes, big and zero-size-item collections, many fields) read into themselves; integer width (int64<->int/int32/int16, also inside slices/maps), float32 carried as double, pointer indirection (T<->*T<->**T, []T<->[]*T, struct<->*struct, []T->*[]T, map->*map), null.* wrappers vs plain and pointer targets, projections. The writer is the reference encoder with every writer-side freedom a solver variable: per array/map where the first block ends (1 or 2 blocks + terminator) and whether blocks carry a negative count and byte size; null first and null second in every nullable union. Values as C01. Fit clause: all 2^64 longs into int16 and int32 targets (error iff out of range). File level: every layout in {[1],[2,1],[1,1],[0,1]} (thorough +[2,2],[1,0,2],[0],[3]) x {null, deflate, snappy} through the real FileWriter and ReadFile",
@@ -69,6 +70,7 @@ P["C03"] = {
 P["C04"] = {
     "common": {"validate": 4, "ignore_kinds": ["alloc", "unwind"], "runs": [
         {"pattern": "verifHarness_C0304_", "label_filter": "C04:"},
+        {"pattern": "verifHarness_C04_", "label_filter": "C04:"},
         {"pattern": "verifHarness_C05_embedded", "label_filter": "C05:"}]},
     "thorough": {"validate": 16},
     "bounds": "same exploration as C03: for each of the 129 pairs the same bytes (incl. size-prefixed and two-block collections, unions, nested records) are decoded into the full target and into an empty struct (every field skipped): skipping must succeed and consume exactly everything; 9 projections of a 5-field record (permuted; each of slice/map/nested-record field deleted; only the last field kept; three fields added; nested fields deleted) keep the values of the remaining fields and leave added fields zero",
